@@ -249,7 +249,7 @@ type jsonhStruct struct {
 	A  int            `json:"a"`
 	B  string         `json:"b,omitempty"`
 	C  []float64      `json:"c"`
-	D  *jsonhStruct      `json:"d,omitempty"`
+	D  *jsonhStruct   `json:"d,omitempty"`
 	E  any            `json:"-"`
 	F  map[string]int `json:"f"`
 	T  time.Time
@@ -860,12 +860,12 @@ type jsonhCase struct {
 }
 
 type jsonhReplay struct {
-	Mode         string    `json:"mode"`
-	Op           string    `json:"op"`
-	RealHex      string    `json:"real_hex"`
-	Real         string    `json:"real_quoted"`
-	ExpectedTree string    `json:"expected_tree"`
-	GotTree      string    `json:"got_tree"`
+	Mode         string       `json:"mode"`
+	Op           string       `json:"op"`
+	RealHex      string       `json:"real_hex"`
+	Real         string       `json:"real_quoted"`
+	ExpectedTree string       `json:"expected_tree"`
+	GotTree      string       `json:"got_tree"`
 	Shrunk       *jsonhReplay `json:"shrunk_via_handler_api,omitempty"`
 }
 
@@ -880,8 +880,10 @@ type jsonhRunner struct {
 	cases int
 }
 
-func jsonhGAttr(a slog.Attr) jsonhGA         { return jsonhGA{a: a} }
-func jsonhGLeaf(key string, raw any) jsonhGA { return jsonhGA{a: slog.Any(key, raw), raw: raw, hasRaw: true} }
+func jsonhGAttr(a slog.Attr) jsonhGA { return jsonhGA{a: a} }
+func jsonhGLeaf(key string, raw any) jsonhGA {
+	return jsonhGA{a: slog.Any(key, raw), raw: raw, hasRaw: true}
+}
 
 func jsonhAttrsOf(gas []jsonhGA) []slog.Attr {
 	out := make([]slog.Attr, len(gas))
